@@ -37,7 +37,10 @@ CONSTANTS DevLimiterNoComplete,   \* Limiter::complete does not forward complete
           DevPopOldest,           \* top-N shortcut drops the oldest tie of the last bucket
           DevTruncAll,            \* every sorter (not only the first key's) keeps just skip+take rows
           DevSwallowBreak,        \* select / split ignore the successor's Break
-          DevSplitLast            \* split feeds every element and answers with the decision of the last one
+          DevSplitLast,           \* split feeds every element and answers with the decision of the last one
+          DevSortBreakStops,      \* a sorter's complete() stops draining at the first Break and skips the successor's complete()
+          DevSortEmptyNoComplete, \* a sorter that holds no rows does not forward complete()
+          DevSpaceCountsKeyless   \* a row without the sort key still uses up a slot of the top-N budget
 
 NoE == [op |-> "none"]
 NoTake == -1
@@ -148,7 +151,10 @@ Proc(cfg, ch, st, i, c) ==
                         IF \E j \in 1..Len(st.uniq) : KeyEq(st.uniq[j], key) THEN Cont(st)
                         ELSE Proc(cfg, ch, [st EXCEPT !.uniq = Append(@, key)], i + 1, c)
     [] sg.k = "sort" -> LET key == Ev(sg.e, c) IN
-                        IF key = Nothing THEN Cont(st)
+                        IF key = Nothing
+                        THEN (IF DevSpaceCountsKeyless /\ st.srt[sg.n].space # -1
+                              THEN Cont([st EXCEPT !.srt[sg.n] = IF @.space = 0 THEN RemoveLast(@, sg.desc) ELSE [@ EXCEPT !.space = @ - 1]])
+                              ELSE Cont(st))
                         ELSE Cont([st EXCEPT !.srt[sg.n] = SortInsert(@, key, c, sg.desc)])
     [] sg.k = "lim" ->
          IF st.lim.skipped < cfg.skip THEN Cont([st EXCEPT !.lim.skipped = @ + 1])
@@ -165,7 +171,9 @@ Proc(cfg, ch, st, i, c) ==
 
 RECURSIVE ProcAll(_, _, _, _, _, _)
 \* a sorter's complete(): every drained context goes to the successor, whose decision is ignored
-ProcAll(cfg, ch, st, i, cs, j) == IF j > Len(cs) THEN st ELSE ProcAll(cfg, ch, Proc(cfg, ch, st, i, cs[j]), i, cs, j + 1)
+ProcAll(cfg, ch, st, i, cs, j) == IF j > Len(cs) THEN Cont(st)
+                                  ELSE LET r == Proc(cfg, ch, st, i, cs[j]) IN
+                                       IF DevSortBreakStops /\ r.dec = "Break" THEN r ELSE ProcAll(cfg, ch, r, i, cs, j + 1)
 
 (***************************************************************************)
 (* complete(): Fin(cfg, ch, st, i)                                         *)
@@ -178,7 +186,7 @@ Fin(cfg, ch, st, i) ==
     [] sg.k = "uniq" -> Fin(cfg, ch, [st EXCEPT !.uniq = <<>>], i + 1)
     [] sg.k = "sort" -> LET drained == SortEmit(st.srt[sg.n], sg.desc)
                             s1 == ProcAll(cfg, ch, [st EXCEPT !.srt[sg.n].b = <<>>], i + 1, drained, 1)
-                        IN Fin(cfg, ch, s1, i + 1)
+                        IN IF (DevSortBreakStops /\ s1.dec = "Break") \/ (DevSortEmptyNoComplete /\ drained = <<>>) THEN s1 ELSE Fin(cfg, ch, s1, i + 1)
     [] sg.k = "lim" -> IF DevLimiterNoComplete THEN st ELSE Fin(cfg, ch, st, i + 1)
     [] sg.k = "grp" -> Proc(cfg, ch, [st EXCEPT !.gk = <<>>, !.gv = <<>>], i + 1,
                             PlainCtx(Obj(st.gk, [j \in 1..Len(st.gv) |-> Arr(st.gv[j])])))
